@@ -380,8 +380,11 @@ func (c *FnCtx) applyPureExtra(st *State, full string, sig *types.Signature, rec
 		if !ok {
 			c.efail("reads heap %s not known", h)
 		}
-		sorts = append(sorts, srt)
-		ts = append(ts, c.heapGet(st, h, srt))
+		// the heap is passed as an integer token naming this heap VALUE (one token per
+		// heap term), not as an array: arrays as arguments of uninterpreted functions
+		// send z3's extensional array theory into very expensive reasoning
+		sorts = append(sorts, "Int")
+		ts = append(ts, c.heapToken(c.heapGet(st, h, srt)))
 	}
 	res := sig.Results()
 	if res.Len() != 1 {
@@ -389,7 +392,7 @@ func (c *FnCtx) applyPureExtra(st *State, full string, sig *types.Signature, rec
 	}
 	f := c.funcSym(full, sorts, c.sortOf(res.At(0).Type()), -1)
 	v := c.mk(res.At(0).Type(), app(f, ts...))
-	c.typeAssume(st, v)
+	c.pureResultFacts(f, sorts, res.At(0).Type())
 	return v
 }
 
@@ -506,6 +509,9 @@ func (c *FnCtx) applyContract(st *State, v ssa.Value, callee *ssa.Function, sp *
 		}
 	}
 	allEns := append(append([]*clause{}, sp.ensures...), sp.expanded...)
+	if c.spec != nil && c.spec.opaque[callee.Name()] {
+		allEns = nil
+	}
 	for _, e := range allEns {
 		if e.cover {
 			continue
@@ -635,6 +641,10 @@ func (c *FnCtx) doAppend(st *State, v ssa.Value, cc *ssa.CallCommon, args []*Val
 		c.setResult(v, c.freshOf(st, v.Type(), v.Name()))
 		return
 	}
+	if args[1].Virt != nil {
+		c.doAppendVirt(st, v, sl, args[0], args[1].Virt)
+		return
+	}
 	s, t := args[0].S, args[1].S
 	el := sl.Elem()
 	es := c.sortOf(el)
@@ -659,14 +669,66 @@ func (c *FnCtx) doAppend(st *State, v ssa.Value, cc *ssa.CallCommon, args []*Val
 	newArr := app("select", nh, tgt)
 	// other arrays unchanged
 	c.assume(fmt.Sprintf("(forall ((r Int)) (! (=> (not (= r %s)) (= (select %s r) (select %s r))) :pattern ((select %s r))))", tgt, nh, h, nh))
-	// prefix
-	c.assume(fmt.Sprintf("(forall ((i Int)) (! (=> (and (<= 0 i) (< i (s_len %s))) (= (select %s (+ %s i)) (select %s (+ (s_off %s) i)))) :pattern ((select %s (+ %s i)))))", s, newArr, toff, srcArr, s, newArr, toff))
-	// appended
-	c.assume(fmt.Sprintf("(forall ((i Int)) (! (=> (and (<= 0 i) (< i %s)) (= (select %s (+ %s (s_len %s) i)) (select %s (+ (s_off %s) i)))) :pattern ((select %s (+ %s (s_len %s) i)))))", n, newArr, toff, s, addArr, t, newArr, toff, s))
+	// the axioms are indexed by ABSOLUTE cell position p so that any read of the new
+	// array triggers them (patterns with index arithmetic do not E-match)
+	// prefix: cells [toff, toff+len s) hold the old elements
+	c.assume(fmt.Sprintf("(forall ((p Int)) (! (=> (and (<= %s p) (< p (+ %s (s_len %s)))) (= (select %s p) (select %s (+ (s_off %s) (- p %s))))) :pattern ((select %s p))))", toff, toff, s, newArr, srcArr, s, toff, newArr))
+	// appended: cells [toff+len s, toff+len s+n) hold the added elements
+	c.assume(fmt.Sprintf("(forall ((p Int)) (! (=> (and (<= (+ %s (s_len %s)) p) (< p (+ %s (s_len %s) %s))) (= (select %s p) (select %s (+ (s_off %s) (- p (+ %s (s_len %s))))))) :pattern ((select %s p))))", toff, s, toff, s, n, newArr, addArr, t, toff, s, newArr))
 	// in-place: cells outside [off+len, off+len+n) of the same array unchanged
 	c.assume(implies(and(inPlace, not(eq(n, "0"))), fmt.Sprintf("(forall ((i Int)) (! (=> (or (< i (+ (s_off %s) (s_len %s))) (>= i (+ (s_off %s) %s))) (= (select %s i) (select %s i))) :pattern ((select %s i))))", s, s, s, newLen, newArr, srcArr, newArr)))
 	c.assume(implies(eq(n, "0"), eq(nh, h)))
 	_ = es
+	c.heapSet(st, hn, hs, nh)
+	c.setResult(v, c.mk(v.Type(), res))
+}
+
+// heapToken returns the integer constant naming a heap term.
+func (c *FnCtx) heapToken(heapTerm Term) Term {
+	if c.heapTok == nil {
+		c.heapTok = map[string]Term{}
+	}
+	if t, ok := c.heapTok[heapTerm]; ok {
+		return t
+	}
+	n := "hv." + sym(heapTerm)
+	if len(n) > 80 || c.declared[n] {
+		n = fmt.Sprintf("hv.%d", len(c.heapTok))
+	}
+	c.declare(n, fmt.Sprintf("(declare-const %s Int)", n))
+	c.heapTok[heapTerm] = n
+	return n
+}
+
+// doAppendVirt: append(s, x1, ..., xn) with the added elements given directly
+// (the varargs temporary of go/ssa is never materialised in the heap).
+func (c *FnCtx) doAppendVirt(st *State, v ssa.Value, sl *types.Slice, sv *Val, elems []*Val) {
+	s := sv.S
+	el := sl.Elem()
+	hn, hs := c.elemHeap(el)
+	h := c.heapGet(st, hn, hs)
+	n := len(elems)
+	nT := fmt.Sprintf("%d", n)
+	newLen := app("+", app("s_len", s), nT)
+	inPlace := c.define("app.inplace", "Bool", app("<=", newLen, app("s_cap", s)))
+	fr := c.allocRef(st, v.Name())
+	newCap := c.fresh("app.cap", "Int")
+	c.assume(app(">=", newCap, newLen))
+	res := c.fresh("app."+v.Name(), "Slice")
+	c.assume(eq(res, ite(inPlace,
+		app("mk_slice", app("s_arr", s), app("s_off", s), newLen, app("s_cap", s)),
+		app("mk_slice", fr, "0", newLen, newCap))))
+	nh := c.fresh(c.heapSym(hn), hs)
+	tgt := app("s_arr", res)
+	toff := app("s_off", res)
+	srcArr := app("select", h, app("s_arr", s))
+	newArr := app("select", nh, tgt)
+	c.assume(fmt.Sprintf("(forall ((r Int)) (! (=> (not (= r %s)) (= (select %s r) (select %s r))) :pattern ((select %s r))))", tgt, nh, h, nh))
+	c.assume(fmt.Sprintf("(forall ((p Int)) (! (=> (and (<= %s p) (< p (+ %s (s_len %s)))) (= (select %s p) (select %s (+ (s_off %s) (- p %s))))) :pattern ((select %s p))))", toff, toff, s, newArr, srcArr, s, toff, newArr))
+	for k, e := range elems {
+		c.assume(eq(app("select", newArr, app("+", toff, app("s_len", s), fmt.Sprintf("%d", k))), e.S))
+	}
+	c.assume(implies(inPlace, fmt.Sprintf("(forall ((i Int)) (! (=> (or (< i (+ (s_off %s) (s_len %s))) (>= i (+ (s_off %s) %s))) (= (select %s i) (select %s i))) :pattern ((select %s i))))", s, s, s, newLen, newArr, srcArr, newArr)))
 	c.heapSet(st, hn, hs, nh)
 	c.setResult(v, c.mk(v.Type(), res))
 }
